@@ -685,6 +685,8 @@ def check_c05(tier):
             nb2, _ = binlayouts.run(V, tier, {"c05"}, meta=rm, cap=60 if tier == "quick" else 1200)
             replayed += nb2
             V.notes["lsp_sessions_random_workspaces"] = nb2
+        import diskchecks
+        V.notes["linked_conftest_workspaces"] = diskchecks.c05_linked_conftests(V, tier)
     return V.finish(
         coverage_extra=tlc_cov(meta, replayed),
         rule="LSP tier: layouts materialised on disk, real binary: definition / hover / implementation / prepareCallHierarchy / "
